@@ -82,6 +82,19 @@ impl<'a> Sx<'a> {
             if let Some(f) = h.first() { v.push(*f); }
             v
         }).unwrap_or_default();
+        // (seventh wave, C11-g / C12-g) boards differing from a history position in exactly ONE square (an extra man - pawns
+        // on the back ranks included - or a man replaced by another type / colour): a different position, so never counted
+        for (ti, p) in targets.iter().enumerate() {
+            for k in 0..6 {
+                if let Some(q) = catch(|| one_square_variant(p, k + ti, rng)).flatten() {
+                    self.out.stats.inc("game.probe_one_square");
+                    let o = self.sess.op_probe(&q);
+                    if let Some(r) = raw(&q) {
+                        self.out.emit(&format!("g.probe {r}"), &o);
+                    }
+                }
+            }
+        }
         for (pi, (name, proj)) in PROJECTIONS.iter().enumerate() {
             let p = match targets.get(pi % targets.len().max(1)) { Some(p) => *p, None => return };
             match catch(|| colliding_board(&p, *proj, rng)).flatten() {
